@@ -130,3 +130,22 @@ impl VoronoiFace {
         self.inner.right.is_none()
     }
 }
+
+#[cfg(any(kani, meshless_voro_verif))]
+impl VoronoiFace {
+    /// Verification hook: a face with the given labels and zeroed integrals.
+    pub fn verif_raw(left: usize, right: Option<usize>, shift: Option<DVec3>) -> Self {
+        Self {
+            inner: FaceIntegrator {
+                left,
+                right,
+                integral: VoronoiFaceIntegral {
+                    area: 0.,
+                    centroid: DVec3::ZERO,
+                    normal: DVec3::ZERO,
+                },
+                shift,
+            },
+        }
+    }
+}
